@@ -124,8 +124,10 @@ check("C07", "DESIGN.md 5/C07",
       "TLC proves for every structured formula x null pattern x policy x caller set in the bound that all parts share the kept rows and "
       "that each part equals the part built alone with the joint drop set; the real code is run on every case: nested shape of the result "
       "and of its model_spec, rows and cells of each part against the model, the separately built part, and regeneration of each part by "
-      "its own spec, for the three outputs.",
-      "Trusted: gamma/alpha of the materializer family; the mirror of the 7 structured formulas between MC_Missing and the harness.")
+      "its own spec, for the three outputs. FormulaForms.tla defines what every specification form (string, list of strings, tuple, keyword "
+      "structure, nested) denotes through the main / nested parser; every form of a bounded family is built with Formula(...) and by "
+      "attribute assignment and compared with the model's tree of term lists.",
+      "Trusted: gamma/alpha of the materializer family; the mirror of the 9 structured formulas between MC_Missing and the harness.")
 
 check("C05", "DESIGN.md 5/C05",
       "one TLA+ definition of the matrix (Materialize.tla, evaluated by TLC on every enumerated case) of which entry point, output type and "
@@ -178,7 +180,7 @@ check("C11", "DESIGN.md 5/C11",
       "difference (both directions) for every n up to the bound, sizes and zero column sums, and exact orthogonality of the polynomial "
       "contrasts' monic polynomials; the real classes are compared (dense, sparse, via ContrastsState) under three labelings, and every "
       "data vector of length <= 3 over levels + {null, unseen} is encoded through encode_contrasts (3 outputs, reduced and full) and "
-      "through model_matrix('C(x, contr...)').",
+      "through model_matrix('C(x, contr...)'). User-supplied coding matrices (array, list with names, dict) are encoded likewise.",
       "Trusted: sqrt for the polynomial normalisation and a 1e-10 float comparison in the harness. Polynomial contrasts exact to n = 5 "
       "(32-bit rationals).")
 
